@@ -1322,3 +1322,11 @@ B('gather-filter-refused-for-baseexception', ['C20'], ['C20-R1'],
   (A, "    for res in await aio.gather(*aws, return_exceptions=True):\n", "    if not issubclass(only, Exception):\n        raise TypeError('only must be an exception class')\n    for res in await aio.gather(*aws, return_exceptions=True):\n"))
 B('gather-awaitables-wrapped', ['C20'], ['C20-R1'],
   (A, "    for res in await aio.gather(*aws, return_exceptions=True):\n", "    aws = [aio.shield(a) for a in aws]\n    for res in await aio.gather(*aws, return_exceptions=True):\n"))
+T('gather-awaitables-materialised', ['C20'],
+  (A, "    for res in await aio.gather(*aws, return_exceptions=True):\n", "    aws = list(aws)\n    for res in await aio.gather(*aws, return_exceptions=True):\n"))
+T('lock-acquire-timed-by-a-transparent-decorator', ['C02', 'C12'],
+  (F, "_logger = logging.getLogger(__name__)\n", "_logger = logging.getLogger(__name__)\n\n\ndef _timed(func: Any) -> Any:\n    import functools\n\n    @functools.wraps(func)\n    def _wrapper(self: Any, *args: Any, **kwargs: Any) -> Any:\n        started = time.time()\n        try:\n            return func(self, *args, **kwargs)\n        finally:\n            _logger.debug('%s took %.3fs', func.__name__, time.time() - started)\n    return _wrapper\n"),
+  (F, "    def acquire(self,\n", "    @_timed\n    def acquire(self,\n"))
+T('cache-decorator-traced-by-a-factory', ['C01', 'C14'],
+  (A, "E = TypeVar('E', bound=BaseException)\n", "def _traced(label: str) -> Any:\n    def _deco(func: Any) -> Any:\n        @wraps(func)\n        def _w(*args: Any, **kwargs: Any) -> Any:\n            logger.debug('%s called', label)\n            return func(*args, **kwargs)\n        return _w\n    return _deco\n\n\nE = TypeVar('E', bound=BaseException)\n"),
+  (A, "def threadsafe_async_cache(\n    func: Optional[_AsyncFunc] = None,\n", "@_traced('cache')\ndef threadsafe_async_cache(\n    func: Optional[_AsyncFunc] = None,\n"))
